@@ -38,9 +38,9 @@ func IsJWT(_ string, data []byte, _ int64) bool {
 }
 
 func IsMixedPEM(_ string, data []byte, _ int64) bool {
+	// an END line after the first BEGIN line; text in front of the block may mention either
 	start := bytes.Index(data, []byte("-----BEGIN"))
-	end := bytes.Index(data, []byte("-----END"))
-	return start >= 0 && end > start
+	return start >= 0 && bytes.Contains(data[start:], []byte("-----END"))
 }
 
 func IsUUID(_ string, data []byte, _ int64) bool {
